@@ -353,6 +353,25 @@ func (x *Exec) callContract(f *Frame, callee *ssa.Function, con *Contract, args 
 	short := callee.Name()
 	x.b.Comment("call " + relKey(callee) + " at " + x.posStr(pos))
 	vars := map[string]TV{}
+	// a callback parameter of the function under proof passed on as an argument: the callee's
+	// <param>$k (results of its callback) are the caller's <param>$k
+	for k, p := range callee.Params {
+		if k >= len(args) {
+			continue
+		}
+		if sig, ok := p.Type().Underlying().(*types.Signature); ok {
+			for name, tv := range x.params {
+				if tv.T.S != args[k].S || strings.Contains(name, "$") {
+					continue
+				}
+				for j := 0; j < sig.Results().Len(); j++ {
+					if r, ok := x.params[fmt.Sprintf("%s$%d", name, j)]; ok {
+						vars[fmt.Sprintf("%s$%d", p.Name(), j)] = r
+					}
+				}
+			}
+		}
+	}
 	for k, p := range callee.Params {
 		if k < len(args) {
 			vars[p.Name()] = TV{args[k], p.Type()}
